@@ -39,10 +39,11 @@ REQUIRED_THEOREMS = [
     "C05_links_keep_data", "C05_oneSew3_effect", "C05_oneUnsew3_effect",
     "C05_twoSew3_free", "C05_twoSew3_left", "C05_twoSew3_right", "C05_twoSew3_both", "C05_twoUnsew3_effect",
     "C05_threeSew3_effect", "C05_threeSew3_vertices", "C05_threeUnsew3_effect",
+    "C05_vertexId3_is_cell_min", "C05_oneSew3_cells", "C05_oneUnsew3_cells",
 ]
 
 SPEC = {
-    "lean_modules": ["Honeycomb.Props.C05"],
+    "lean_modules": ["Honeycomb.Props.C05", "Honeycomb.Props.C05Cells"],
     "required_theorems": REQUIRED_THEOREMS,
     "trusted_base": [
         "Lean 4.33 kernel; axioms propext, Classical.choice, Quot.sound only",
@@ -71,7 +72,9 @@ SPEC = {
             "storages VTerm ETerm FTerm CTerm VDef (masks). Oracle on the implementation: see the module docstring. "
             "distinct_nontrivial = distinct implementation transcripts.",
     "not_proved": [
-        "identification of the computed identifiers with cells (new cell = union of the two old cells, 3-D vertex-cell calculus): oracle only",
+        "identification of the computed identifiers with cells: PROVED for 1-sew/1-unsew (Props/C05Cells.lean: vertex_id_transac = smallest "
+        "dart of the vertex cell on every WF 3-map; new partition = old one with the cells of the head of l and of r united; the id "
+        "merged into / split from is the smallest dart of the united cell); for 2- and 3-(un)sews (several simultaneous pairs): oracle only",
         "3-sew / 3-unsew placement is proved as the exact chain of merges/splits relative to the collected id pairs "
         "(C05_threeSew3_effect, C05_threeUnsew3_effect; under the proviso on the chain: C05_threeSew3_vertices); that the collected "
         "pairs are the pairs of cells united by the 3-link on closed faces: oracle only",
